@@ -157,6 +157,9 @@ func (_this *Reader) ReadDate() compact_time.Time {
 	if err != nil {
 		_this.unexpectedError(err)
 	}
+	if err := value.Validate(); err != nil {
+		_this.errorf("%v", err)
+	}
 
 	return value
 }
@@ -166,6 +169,9 @@ func (_this *Reader) ReadTime() compact_time.Time {
 	if err != nil {
 		_this.unexpectedError(err)
 	}
+	if err := value.Validate(); err != nil {
+		_this.errorf("%v", err)
+	}
 
 	return value
 }
@@ -174,6 +180,9 @@ func (_this *Reader) ReadTimestamp() compact_time.Time {
 	value, _, err := compact_time.DecodeTimestampWithBuffer(_this.reader, _this.buffer)
 	if err != nil {
 		_this.unexpectedError(err)
+	}
+	if err := value.Validate(); err != nil {
+		_this.errorf("%v", err)
 	}
 
 	return value
